@@ -1198,8 +1198,14 @@ pub fn generate(prop: &str, seed: u64, n: usize, out: &str) {
                 std::process::exit(2);
             }
         };
-        for l in lines {
-            writeln!(w, "{}", l).unwrap();
+        // DV_OFF=<switch,…>: the cases are meant for a /repo with those fixes applied (model switches off)
+        let off = std::env::var("DV_OFF").unwrap_or_default();
+        for (i, l) in lines.iter().enumerate() {
+            if i == 0 && !off.is_empty() {
+                writeln!(w, "{} off={}", l, off).unwrap();
+            } else {
+                writeln!(w, "{}", l).unwrap();
+            }
         }
     }
     w.flush().unwrap();
